@@ -25,7 +25,8 @@ func init() {
 			"Checks are located through composition over module-internal calls with labels rewritten into the entry point's frame, so helper names are not anchors. " +
 			"Exits that hand back the result of a verdict forwarder (a result constructor newResult(…, err), a failure exit failed(err) that records and returns its argument, an error wrapper) " +
 			"are classified by the forwarded argument at the call site (extra_c01.go); the media-type disjunction and the metadata obligation are decided by the cut argument across helper " +
-			"boundaries with the helpers' parameters rewritten to the arguments (a helper's own allocations are kept apart from the entry point's), whatever the helper is handed or answers (error / bool).",
+			"boundaries with the helpers' parameters rewritten to the arguments (a helper's own allocations are kept apart from the entry point's), whatever the helper is handed or answers (error / bool / the error cell of the outcome it is handed: a step without a verdict among its results, c01mCell). " +
+			"The signature bytes may be read back from a single-assignment field of the outcome literal (c01ParamAliases); the signed target may be that of a payload a helper decodes itself from the verified content (c01DecodedHere).",
 		NotCov:  "cryptographic validity of the signature, envelope parsing, content.Equal's body, JSON duplicate-key semantics (trusted: notation-core-go, oras-go, encoding/json).",
 		Trusted: []string{"go/types, go/ssa (x/tools v0.29.0)", "notation-core-go signature.ParseEnvelope / Envelope.Verify", "oras-go content.Equal", "encoding/json"},
 	})
@@ -59,6 +60,12 @@ func integrityNeeds(w *World, fn *ssa.Function) []Need {
 	pt, _ := w.constString("internal/envelope", "MediaTypePayloadV1")
 	q := regexp.QuoteMeta
 	sig, opts := q(paramWhere(fn, isByteSlice)), q(paramWhere(fn, hasField("SignatureMediaType")))
+	// the signature bytes may be read back from the one object the entry point stored them in (extra_c01.go,
+	// c01ParamAliases: a single-assignment field of the outcome literal): that description names the parameter too
+	for _, al := range c01ParamAliases(w, fn, isByteSlice) {
+		sig += "|" + q(al)
+	}
+	sig = "(?:" + sig + ")"
 	return []Need{
 		{Name: "parse-envelope", What: "signature.ParseEnvelope(mediaType, signature bytes) err == nil, applied to the entry point's signature and media-type parameters",
 			Re: regexp.MustCompile(`^EQ\(call:core/signature\.ParseEnvelope\(` + opts + `\.SignatureMediaType,` + sig + `\)#err,nil\)$`)},
@@ -263,7 +270,27 @@ func c01BlobBinding(c *Ctx, fn *ssa.Function, fi *FnInfo, sum *Summary, ta, outc
 	gen := `call:dyn:` + q(paramWhere(fn, isFuncType)) + `\(` + chosen.value + `\)`
 	c.requireOnExits("blob", fn, sum.Exits, needsOf(chosen))
 	// media type: pass = (desc.MediaType == "") or (desc.MediaType == target.MediaType)
-	reMT := regexp.MustCompile(`^EQ\(` + both(gen+`#0\.MediaType`, q(ta)+`\.MediaType`) + `\)$`)
+	// (the signed target: that of the payload the entry point decodes, or of a payload that a helper on the way decodes
+	// itself from the verified content of the same outcome — extra_c01.go, c01DecodedHere; tas grows while gateHolds descends)
+	tas := []string{ta}
+	var reMT *regexp.Regexp
+	mkMT := func() {
+		var alts []string
+		for _, t := range tas {
+			alts = append(alts, q(t))
+		}
+		reMT = regexp.MustCompile(`^EQ\(` + both(gen+`#0\.MediaType`, `(?:`+strings.Join(alts, "|")+`)\.MediaType`) + `\)$`)
+	}
+	mkMT()
+	onFrame := func(gfi *FnInfo, gm Mode, fr c01Frame, cut map[edgeKey]bool) {
+		if gfi.Fn == fn {
+			return
+		}
+		for _, p := range c01Engine(w).c01DecodedHere(gfi, gm, fr, cut, outcomeDesc+".EnvelopeContent.Payload.Content") {
+			tas = append(tas, p+".TargetArtifact")
+		}
+		mkMT()
+	}
 	reEmpty := regexp.MustCompile(`^EQ\(` + both(gen+`#0\.MediaType`, `const:""`) + `\)$`)
 	// a disjunction of the two facts (the value of `mt != "" && mt != signed` tested as one condition)
 	isOrOfBoth := func(l string) bool {
@@ -297,7 +324,7 @@ func c01BlobBinding(c *Ctx, fn *ssa.Function, fi *FnInfo, sum *Summary, ta, outc
 	}
 	rule := "must-check (disjunctive): every non-skip success exit passes desc.MediaType == signed MediaType, bypassable only by desc.MediaType == \"\""
 	nFact := 0
-	holds, path := c01Engine(w).gateHolds(fn, Mode{Kind: mErr}, c01Frame{canon: c01Engine(w).canon(fn)}, skipEdges(fi), fact, 0, &nFact)
+	holds, path := c01Engine(w).gateHolds(fn, Mode{Kind: mErr}, c01Frame{canon: c01Engine(w).canon(fn)}, skipEdges(fi), fact, 0, &nFact, onFrame)
 	c.Evals += 2
 	switch {
 	case nMT == 0:
